@@ -244,3 +244,27 @@ Section LiftTable.
     - apply lwf_thresh. split; [|exact I2]. change (N.to_nat 1) with 1%nat. rewrite I3. cbn [length]. lia.
   Qed.
 End LiftTable.
+
+(* ---------- non-vacuity of the script-direction hypotheses (all but the arithmetic facts about
+   script numbers, which are universally quantified statements) ---------- *)
+Definition ex_e : env :=
+  mkEnv SvWitnessV0 0 5 2 (fun _ _ => true) (fun _ => true) (fun b => b) (fun b => b) (fun b => b) (fun _ => [7%N]).
+Definition ex_ke : keyenv := mkKeyEnv (fun _ => [2%N]) (fun _ => [7%N]) (fun ks => ks).
+Definition ex_A : assets :=
+  mkAssets (fun k => if N.eqb k 0 then Some [1%N] else None) (fun _ => None) (fun _ => None) (fun _ => None)
+           (fun _ => None) (fun _ => false) (fun t => N.eqb t 5).
+Definition ex_m : ms := MAndV (MVerify (MCheck (MPkK 0%N))) (MOlder 5%N).
+
+Lemma lift_nonvacuous :
+  assets_ok ex_e ex_ke ex_A /\ (forall ks, Permutation (ksort ex_ke ks) ks) /\
+  exists t p, type_of ex_m = ROk t /\ c_base (t_corr t) = BB /\ wf ex_e ex_ke ex_m /\ no_multi ex_m /\
+              lift true ex_m = Some p /\ leval ex_A p = true.
+Proof.
+  split; [|split].
+  - constructor; try (intros; discriminate); try (intros; reflexivity).
+    + intros k s H. cbn in H. destruct (N.eqb k 0); inversion H; subst. split; [reflexivity | cbn; lia].
+    + intros k. cbn. lia.
+    + intros t H. cbn in H. apply N.eqb_eq in H. subst. reflexivity.
+  - intros ks. apply Permutation_refl.
+  - eexists. eexists. repeat split; try reflexivity.
+Qed.
